@@ -21,6 +21,7 @@ plugin "beancount.plugins.auto_accounts"
 2020-01-01 open Income:Salary USD
 2020-01-01 open Expenses:Food USD
 2020-01-01 open Expenses:Rent USD
+2020-01-01 open Expenses:Food:Coffee USD
 
 2020-01-02 * "Employer" "salary" #pay ^link1
   ref: "abc"
@@ -36,6 +37,10 @@ plugin "beancount.plugins.auto_accounts"
   Liabilities:Card       -20.00 USD
   Expenses:Food           20.00 USD
     who: "me"
+
+2020-01-06 * "Amy Cafe" "espresso"
+  Liabilities:Card        -3.2503 USD
+  Expenses:Food:Coffee     3.2503 USD
 
 2020-01-10 * "Broker" "buy hool" ^link1 ^link2
   Assets:Broker            2 HOOL {100.00 USD, 2020-01-10}
